@@ -45,6 +45,7 @@ CHECKS = {
          "edwards25519's shape, ScalarmultBaseNiels for every scalar and DoubleScalarmultVartime for every point and scalar pair at the scaled size (MCGroupLaw, with four refuted controls); R2: complete enumeration of the selector domain 32 x 17 on every backend; "
          "R3: selector entries (niels relation), fixed-base and double-base results validated by TLC in exact arithmetic against the Z_L x Z_8 coordinates; projection audited bit by bit in TLA+"),
  "C18": ("4 C18", "R3 (sampling with an exact oracle): every field operation of both limb layouts on limb-boundary inputs and on the operand classes the group law produces; TLC computes the represented integers "
+         "(and, with FieldLimbsBig, predicts the result limb for limb from the limb-level transcription at the real widths - the binding of the scaled R1 models to the code) "
          "from the limbs and checks the residue identity, canonical serialisation, parsing and conditional swap in BigNat arithmetic; R1 (TLC, exhaustive at scaled sizes): limb-level transcriptions of both layouts "
          "(FieldLimbs: 5x51 at 3x3 bits; FieldLimbs32: 10x25.5 at 4 and 6 alternating limbs incl. Mul's in-place doubling and Sub's partial carry) - exact residues, no underflow, canonical Contract for every representation, "
          "with refuted controls; FieldSquare: the squaring routines term by term at 5 / 10 limbs (Square and SquareTimes of the 64-bit file have different carry schemes), every reduced operand; FieldBounds32 / FieldBounds51: interval analysis at the real limb sizes of every point formula on both layouts (no uint32 / uint64 wrap, no underflow; controls refuted); decode algorithm over small fields"),
